@@ -279,7 +279,7 @@ func (a *vrfApp) runBody(body io.ReadCloser, c vrfCmd) bool {
 			}
 		}
 	case 'c':
-		// closed once only: io.Closer leaves a second Close undefined
+		// closed once only; see 'C'
 		a.mu.Lock()
 		already := a.bodyClosed
 		a.bodyClosed = true
@@ -287,6 +287,13 @@ func (a *vrfApp) runBody(body io.ReadCloser, c vrfCmd) bool {
 		if !already {
 			body.Close()
 		}
+	case 'C':
+		// a further Close of a body that may be closed already (defer resp.Body.Close() after an
+		// explicit Close is everyday client code; the bodies of net/http tolerate it)
+		a.mu.Lock()
+		a.bodyClosed = true
+		a.mu.Unlock()
+		body.Close()
 	default:
 		return false
 	}
